@@ -43,7 +43,7 @@ CHECKS = {
          "DESIGN.md section 3 C03"),
  "C14": ("simnet",
          "property-based testing over API programs x configurations x write-acceptance patterns; oracle = reference RFC 9114 parser over the complete per-stream byte logs + metamorphic relation (same frames as under accept-everything)",
-         "Both roles run generated API programs (1..3 exchanges, send_data incl. empty and 64 KiB buffers, trailers, finish, repeated server shutdown(n), client shutdown, handles dropped between calls, builder option classes, grease on/off) over a transport that accepts writes a few bytes at a time; every byte each h3 end wrote on every stream is parsed by the reference: legal stream types, SETTINGS first and once with legal ids, only allowed frames per stream kind, complete frames whose declared length matches, reserved ids of the 0x1f*N+0x21 form, GOAWAY ids legal for the role; the semantic frame content must equal that of the accept-everything run.",
+         "Both roles run generated API programs (1..3 exchanges, send_data incl. empty and 64 KiB buffers, trailers, finish, repeated server shutdown(n), client shutdown, handles dropped between calls, builder option classes, grease on/off) over a transport that accepts writes a few bytes at a time; every byte each h3 end wrote on every stream is parsed by the reference: legal stream types, SETTINGS first and once with legal ids, only allowed frames per stream kind, complete frames whose declared length matches, reserved ids of the 0x1f*N+0x21 form, GOAWAY ids legal for the role and never greater than in an earlier GOAWAY of the same endpoint (RFC 9114 5.2); the semantic frame content must equal that of the accept-everything run.",
          "trusted: src/simnet/wire.rs + src/reference/frames.rs; write futures are never cancelled mid-frame (outside the documented patterns)",
          "DESIGN.md section 3 C14"),
  "C04": ("simnet",
@@ -73,7 +73,7 @@ CHECKS = {
          "DESIGN.md section 3 C06, 2.5"),
  "C07": ("simnet",
          "enumeration of (fault kind x victim subset) + property-based testing over generated request sets, merged operation orders and schedules; oracle = per-request round trip for healthy requests + stream-level error table for faulty ones + 'no close, no driver error' invariant",
-         "2..4 concurrent requests on one connection against a real h3 server and, mirrored, a real h3 client; any subset suffers one of RESET(code) at a byte offset, STOP_SENDING(code) at a moment, a validly encoded malformed message, an oversized section, FIN before HEADERS, an abandoned stream; operations of all streams are merged in tape order. Healthy requests must see exactly their own body and end of message and h3 must write exactly HEADERS + DATA(own echo) + FIN on their stream; faulty ones report, if anything, RemoteTerminate{peer code} / H3_MESSAGE_ERROR / HeaderTooBig / H3_REQUEST_INCOMPLETE; zero close calls, no driver error, every announced request accepted.",
+         "2..4 concurrent requests on one connection against a real h3 server and, mirrored, a real h3 client; any subset suffers one of RESET(code) at a byte offset, STOP_SENDING(code) at a moment, a validly encoded malformed message, an oversized section, FIN before HEADERS, an abandoned stream; operations of all streams are merged in tape order. Healthy requests must see exactly their own body and end of message and h3 must write exactly HEADERS + DATA(own echo) + FIN on their stream; faulty ones report, if anything, RemoteTerminate{peer code} / H3_MESSAGE_ERROR / HeaderTooBig / H3_REQUEST_INCOMPLETE; zero close calls, no driver error, every announced request accepted. Both ends h3 (e2e family): the client cancels a proper subset of its requests, or the victims are malformed only as a whole (no :authority and an empty Host: sent by h3's client, refused by the server with H3_MESSAGE_ERROR at stream level on both ends; Host and :authority disagree: refused by the client itself as an error of that request only, the well-formed request k follows on the same handle).",
          "trusted: reference frame parser for the written side, simulated transport",
          "DESIGN.md section 3 C07"),
  "C08": ("simnet",
@@ -83,7 +83,7 @@ CHECKS = {
          "DESIGN.md section 3 C08"),
  "C09": ("simnet",
          "exhaustive enumeration of request-ending histories + property-based testing; oracle = quiescence invariant accept()==None iff all handed-out requests ended (ground truth counted by the handlers)",
-         "All histories of <= 3 requests x 12 (ending, immediate/late) options x GOAWAY position under two schedules, random ones up to 4 requests: endings {normal, resolver dropped, FIN before HEADERS, RESET before/after HEADERS, malformed headers, split halves dropped separately, never}. With the peer's GOAWAY processed and every handed-out request ended the accept loop must have observed Ok(None) at quiescence; otherwise it must not; at the instant accept() returns None no handed-out request may be alive.",
+         "All histories of <= 3 requests x 12 (ending, immediate/late) options x GOAWAY position under two schedules (and against a server that sends grease while the peer grants exactly three unidirectional streams, frozen), random ones up to 4 requests: endings {normal, resolver dropped, FIN before HEADERS, RESET before/after HEADERS, malformed headers, split halves dropped separately, never}. With the peer's GOAWAY processed and every handed-out request ended the accept loop must have observed Ok(None) at quiescence; otherwise it must not; at the instant accept() returns None no handed-out request may be alive.",
          "trusted: quiescence decides 'forever'; handlers bump the ended counter in the same poll as dropping their last handle",
          "DESIGN.md section 3 C09"),
  "C19": ("simnet",
@@ -103,7 +103,7 @@ CHECKS = {
          "DESIGN.md section 3 C05, 2.7"),
  "C17": ("quinn-loop",
          "property-based testing over generated frame sequences, flow-control windows and injected faults against REAL Quinn endpoints on UDP loopback + enumeration of the id-state and error tables; oracle = byte equality at a raw Quinn peer, id constancy, error-class table",
-         "h3_quinn over real quinn 0.11 connections (fresh connection per case, endpoints reused per worker, current-thread tokio runtime): 1..6 WriteBufs (DATA/HEADERS/GOAWAY/grease/stream-type-prefixed, payloads 0..256 KiB) and raw poll_send under stream/connection receive windows and send windows from 1 byte to 16 MiB; a raw Quinn peer reads to the end and must see exactly the handed-over bytes once, complete, in order; a second send_data before poll_ready completed must be refused and contribute nothing. send_id/recv_id (and the split halves) in 8 states x opened/accepted side: always the QUIC stream id, never a panic. Error table: peer close => ApplicationClose{code} on accept/read/write, idle timeout => Timeout, reset => StreamTerminated{code} on read, stop => StreamTerminated{code} on write, for several codes incl. 2^62-1.",
+         "h3_quinn over real quinn 0.11 connections (fresh connection per case, endpoints reused per worker, current-thread tokio runtime): 1..6 WriteBufs (DATA/HEADERS/GOAWAY/grease/stream-type-prefixed, payloads 0..256 KiB) and raw poll_send under stream/connection receive windows and send windows from 1 byte to 16 MiB; a raw Quinn peer reads to the end and must see exactly the handed-over bytes once, complete, in order; a second send_data before poll_ready completed must be refused and contribute nothing; the last write may be polled once only before the stream is finished (a dropped send future), also through the send half of a bidirectional stream split at that moment. send_id/recv_id (and the split halves) in 8 states x opened/accepted side: always the QUIC stream id, never a panic. Error table: peer close => ApplicationClose{code} on accept/read/write, idle timeout => Timeout, reset => StreamTerminated{code} on read, stop => StreamTerminated{code} on write, for several codes incl. 2^62-1.",
          "trusted: quinn, tokio and the kernel own the schedule (sampled, not controlled); 20 s wall-clock watchdog per case maps to exit 2, never to a violation",
          "DESIGN.md section 3 C17"),
 }
